@@ -32,7 +32,7 @@ from typing import Any, Callable, Iterable, Iterator
 __all__ = [
     "Atom", "enumerate_bodies", "count_stmts", "depth_of", "falls_through",
     "has_dead_code", "n_conds", "render", "render_map", "points", "explore_paths",
-    "Exploration", "to_json", "from_json", "show",
+    "Exploration", "to_json", "from_json", "show", "brute_force_paths",
 ]
 
 
@@ -439,3 +439,63 @@ def explore_paths(body, init_state, step: Callable) -> Exploration:
     ex.n_states = sum(len(v) for v in ex.before.values()) + len(ex.exits)
     ex.n_transitions = trans[0]
     return ex
+
+
+def brute_force_paths(body, init_state, step: Callable, max_iter: int = 4):
+    """Independent cross-check for `explore_paths`: enumerates every execution
+    path one by one (each loop executed 0..max_iter times, every `if` both ways)
+    with no fixpoint, no memoisation and no state merging.  Returns (before, exits)
+    in the same format as `Exploration`.  Exponential: only for tiny programs.
+
+    Always  brute.before[p] <= explore.before[p]  and  brute.exits <= explore.exits;
+    equality holds once max_iter is at least the number of iterations a loop needs
+    to show all its states."""
+    before = {p: set() for p in points(body)}
+    exits: set = set()
+
+    def run(block, path, i, state):
+        """yields (outcome, state): outcome in fall/break/continue/return"""
+        if i == len(block):
+            yield ("fall", state)
+            return
+        st = block[i]
+        p = path + (i,)
+        before[p].add(state)
+        k = st[0]
+        if k == "a":
+            for s2 in step(state, st[1], p):
+                if st[1].is_return:
+                    yield ("return", s2)
+                else:
+                    yield from run(block, path, i + 1, s2)
+        elif k in ("break", "continue"):
+            yield (k, state)
+        elif k == "if":
+            arms = [(st[1], p + ("b",))]
+            if st[2]:
+                arms.append((st[2], p + ("e",)))
+            else:
+                yield from run(block, path, i + 1, state)
+            for arm, ap in arms:
+                for o, s2 in run(arm, ap, 0, state):
+                    if o == "fall":
+                        yield from run(block, path, i + 1, s2)
+                    else:
+                        yield (o, s2)
+        else:
+            def iterate(s, n):
+                yield from run(block, path, i + 1, s)          # condition false
+                if n >= max_iter:
+                    return
+                for o, s2 in run(st[1], p + ("b",), 0, s):      # one more iteration
+                    if o in ("fall", "continue"):
+                        yield from iterate(s2, n + 1)
+                    elif o == "break":
+                        yield from run(block, path, i + 1, s2)
+                    else:
+                        yield (o, s2)
+            yield from iterate(state, 0)
+
+    for o, s in run(body, (), 0, init_state):
+        exits.add(("return" if o == "return" else "end", s))
+    return before, exits
